@@ -42,6 +42,7 @@ type c20Pre struct {
 	owners   map[string]ownerSnap
 	spotTrig map[uint64]string // "yes" | "no" | "unknown"
 	perpTrig map[uint64]string
+	escrow   map[string]sdk.Coins // spendable balance at the escrow address of every order named in an execution request
 }
 
 type MonC20 struct {
@@ -240,7 +241,7 @@ func (m *MonC20) PreTx(ctx sdk.Context, t *ExecTx) {
 	if !isTradeshieldTx(t) {
 		return
 	}
-	p := &c20Pre{orders: m.orders(ctx), owners: map[string]ownerSnap{}, spotTrig: map[uint64]string{}, perpTrig: map[uint64]string{}}
+	p := &c20Pre{orders: m.orders(ctx), owners: map[string]ownerSnap{}, spotTrig: map[uint64]string{}, perpTrig: map[uint64]string{}, escrow: map[string]sdk.Coins{}}
 	for _, ow := range m.involvedOwners(t, p.orders) {
 		p.owners[ow] = m.owner(ctx, p.orders, ow)
 	}
@@ -249,11 +250,13 @@ func (m *MonC20) PreTx(ctx sdk.Context, t *ExecTx) {
 			for _, id := range x.SpotOrderIds {
 				if ord, ok := p.orders.spot[id]; ok {
 					p.spotTrig[id] = m.spotTrigger(ctx, ord)
+					p.escrow[ord.GetOrderAddress().String()] = m.sim.N0.App.BankKeeper.SpendableCoins(ctx, ord.GetOrderAddress())
 				}
 			}
 			for _, id := range x.PerpetualOrderIds {
 				if ord, ok := p.orders.perp[id]; ok {
 					p.perpTrig[id] = m.perpTrigger(ctx, ord)
+					p.escrow[ord.GetOrderAddress().String()] = m.sim.N0.App.BankKeeper.SpendableCoins(ctx, ord.GetOrderAddress())
 				}
 			}
 		}
@@ -296,6 +299,7 @@ func (m *MonC20) PostTx(ctx sdk.Context, t *ExecTx) {
 				_ = escrowPre
 				if !still {
 					executedFor[ord.OwnerAddress] = true
+					m.checkEscrowSpent(ctx, pre, ord.GetOrderAddress(), ord.OrderAmount, fmt.Sprintf("spot order %d", id), step)
 				}
 				if trig == "no" && names[id] == 1 {
 					// must be untouched
@@ -323,6 +327,7 @@ func (m *MonC20) PostTx(ctx sdk.Context, t *ExecTx) {
 				trig := pre.perpTrig[id]
 				if !still {
 					executedFor[ord.OwnerAddress] = true
+					m.checkEscrowSpent(ctx, pre, ord.GetOrderAddress(), ord.Collateral, fmt.Sprintf("perpetual order %d", id), step)
 				}
 				if trig == "no" {
 					now, ok := post.perp[id]
@@ -408,6 +413,25 @@ func (m *MonC20) checkCancelSpot(ctx sdk.Context, t *ExecTx, pre *c20Pre, post o
 	}
 	s.Stats.Probe("order_cancel_checked")
 	_ = sdkmath.ZeroInt
+}
+
+// checkEscrowSpent: an order that an execution request removed has had its escrow spent on the owner's
+// behalf (or returned); nothing of the order's own funds may stay at the escrow address, which no
+// message can reach once the order record is gone. Whatever else sat there before (a stranger's
+// transfer) is not the order's.
+func (m *MonC20) checkEscrowSpent(ctx sdk.Context, pre *c20Pre, escrow sdk.AccAddress, funds sdk.Coin, what, step string) {
+	s := m.sim
+	bank := s.N0.App.BankKeeper
+	before := pre.escrow[escrow.String()].AmountOf(funds.Denom) // exact pre-state of this transaction
+	after := bank.SpendableCoins(ctx, escrow).AmountOf(funds.Denom)
+	foreign := before.Sub(funds.Amount)
+	if foreign.IsNegative() {
+		foreign = sdkmath.ZeroInt()
+	}
+	s.Stats.Probe("executed_order_escrow_checked")
+	if after.GT(foreign) {
+		s.Violate("C20", "executed_order_left_escrow", step, "%s was removed by an execution request but %s%s of its %s escrow is still at its escrow address (held %s before), out of everyone's reach", what, after.Sub(foreign), funds.Denom, funds, before)
+	}
 }
 
 func (m *MonC20) checkCancelPerp(ctx sdk.Context, t *ExecTx, pre *c20Pre, post orderSnap, id uint64, claimedOwner, step string) {
